@@ -5,6 +5,7 @@
       move=<k>s|<k>d|-  crash=<k|->  files=<file>|<file>...
   file = size:skip:gid:outreg:dstexists:fin:ops     ops = dot separated  R<n> W<n> Z<n> (sparse write) F<n> T I0 (init ok) I1 (init error)
 
+  Every event carries " B1" / " B0": were the hooked signals blocked (signals_block_count > 0) at that call.
   Output: for every file  "<event>;<event>;...#<final fs>"  joined by " | ", then " | exit=<status|sig|crash>".
 -/
 import XzVerif.Model.Proto
@@ -111,9 +112,11 @@ def parseFile (s : String) : Option FileSpec :=
            fin := if fin == "ok" then .ok else .error, pre, init := ini, ops }
   | _ => none
 
-def runTo (c : Cfg Unit) (limit : Nat) : Nat → St Unit → St Unit
-  | 0, s => s
-  | n + 1, s => if s.pc = .done ∨ s.k ≥ limit then s else runTo c limit n (step c s)
+/-- run until the file is done or the call limit is reached; also collects, per system call, whether the hooked
+    signals were blocked when it was made (signals_block_count > 0), newest first -/
+def runTo (c : Cfg Unit) (limit : Nat) : Nat → St Unit → List Bool → St Unit × List Bool
+  | 0, s, fl => (s, fl)
+  | n + 1, s, fl => if s.pc = .done ∨ s.k ≥ limit then (s, fl) else runTo c limit n (step c s) ((s.blk > 0) :: fl)
 
 def parseMove (s : String) : Option (Option (Nat × Bool)) :=
   if s == "-" then some none
@@ -150,8 +153,8 @@ def doRun (ws : List String) : Option String := do
                               pre := f.pre, init := f.init, ops := f.ops, fin := f.fin, fault, signalAt := sig, moveAt := move, zero := () }
         let s0 := start c f.dstExists k exitSt
         -- a process that is to die before its (k+1)-th call makes no call at all when the limit is already reached
-        let s := runTo c limit 1000000 s0
-        let tr := ";".intercalate (s.trace.reverse.map renderEvent)
+        let (s, fl) := runTo c limit 1000000 s0 []
+        let tr := ";".intercalate ((s.trace.reverse.zip fl.reverse).map fun (e, b) => renderEvent e ++ (if b then " B1" else " B0"))
         go rest s.k s.exitSt s.userAbort (s.pc != .done) ((tr ++ "#" ++ renderFs s) :: acc)
   let (outs, exitSt, abort, crashed) := go files 0 0 false false []
   let ex := if crashed then "crash" else if abort then "sig" else toString exitSt
